@@ -617,6 +617,12 @@ pub fn make(kind: &'static str, want: Option<&Ty>, env: &Env, s: &mut Sel) -> Op
                 ("zq2: dict.Dict(int, int) : dict.new()\ndict.update(zq2, \"k\", 1)", "zq2: dict.Dict(int, int) : dict.new()\ndict.update(zq2, 1, 1)", true),
                 ("zq2: set.Set(int) : set.from_list([\"a\"])", "zq2: set.Set(int) : set.from_list([1])", false),
                 ("zq2: [(int, str)] : [(1, \"a\"), (2, 3)]", "zq2: [(int, str)] : [(1, \"a\"), (2, \"b\")]", false),
+                // members whose declared type is a blob declared further down (`Zqo` above `Zqp`, see add_helpers)
+                ("zq1 :: Zqo { zi: Maybe.Just \"s\" }", "zq1 :: Zqo { zi: Maybe.Just (Zqp { zx: 1 }) }", false),
+                ("zq1 :: Zqo { zi: Maybe.Just 1 }", "zq1 :: Zqo { zi: Maybe.None }", false),
+                ("zq1 :: Zqo { zi: Maybe.Just (Zqp { zx: \"s\" }) }", "zq1 :: Zqo { zi: Maybe.Just (Zqp { zx: 2 }) }", false),
+                ("zq1 :: Zqd { zd: 3 }", "zq1 :: Zqd { zd: Zqp { zx: 3 } }", false),
+                ("zq1 :: Zqd { zd: Zqp { zx: \"s\" } }", "zq1 :: Zqd { zd: Zqp { zx: 2 } }", false),
             ];
             let usable: Vec<&(&str, &str, bool)> = G.iter().filter(|g| !(g.2 && env.pure_)).collect();
             let g = *s.pick(&usable);
